@@ -83,6 +83,25 @@ Ltac upd t0 t :=
   destruct (Nat.eq_dec t0 t) as [->|?];
   [rewrite ?updf_same in * | rewrite ?updf_other in * by assumption].
 
+(* a call that returns an error without having touched this file's lock or bytes *)
+Lemma refused_inv s t : Inv s -> pcs s t = PStart -> Inv (set_pc s t PDoneErr).
+Proof.
+  intros I Ept.
+  constructor; cbn [pcs tbl owner file log set_pc].
+  * intros t0. upd t0 t; [|apply (I_owner s I)]. rewrite (I_owner s I), Ept. cbn. tauto.
+  * intros t0. upd t0 t; [discriminate|apply (I_tbl1 s I)].
+  * intros p Hp. destruct (I_tbl2 s I p Hp) as (t0 & Hp0 & Hl). exists t0. split; [exact Hp0|].
+    upd t0 t; [rewrite Ept in Hl; discriminate|exact Hl].
+  * intros t0 t1. upd t0 t; [discriminate|]. upd t1 t; [discriminate|]. apply (I_tbl3 s I).
+  * rewrite (I_file s I) at 1. unfold partial. cbn [owner pcs set_pc].
+    destruct (owner s) as [o|]; [|reflexivity]. upd o t; [rewrite Ept|]; reflexivity.
+  * intros t0 i. upd t0 t; [intros [H|H]; discriminate|apply (I_cur s I)].
+  * intros t0 i. upd t0 t; [intros [H|[H|H]]; discriminate|apply (I_done s I)].
+  * intros t0. upd t0 t; [discriminate|apply (I_pos s I)].
+  * intros t0. upd t0 t; [|apply (I_log s I)]. rewrite (I_log s I), Ept. cbn. tauto.
+  * apply (I_nodup s I).
+Qed.
+
 (* ------------------------------------------------------------------ one step preserves the invariant *)
 
 Lemma step_inv s t s' : Inv s -> step c s t = Some s' -> Inv s'.
@@ -90,21 +109,11 @@ Proof.
   intros I Hstep. unfold step in Hstep.
   destruct (pcs s t) eqn:Ept.
   - (* PStart *)
-    destruct (tbl s (proc c t)) eqn:Etbl; inversion Hstep; subst; clear Hstep.
+    destruct (away c t) eqn:Eaway; [|destruct (tbl s (proc c t)) eqn:Etbl]; inversion Hstep; subst; clear Hstep.
+    + (* the call goes to another file and fails there: nothing of this file changes *)
+      apply refused_inv; assumption.
     + (* ErrPttLock *)
-      constructor; cbn [pcs tbl owner file log set_pc].
-      * intros t0. upd t0 t; [|apply (I_owner s I)]. rewrite (I_owner s I), Ept. cbn. tauto.
-      * intros t0. upd t0 t; [discriminate|apply (I_tbl1 s I)].
-      * intros p Hp. destruct (I_tbl2 s I p Hp) as (t0 & Hp0 & Hl). exists t0. split; [exact Hp0|].
-        upd t0 t; [rewrite Ept in Hl; discriminate|exact Hl].
-      * intros t0 t1. upd t0 t; [discriminate|]. upd t1 t; [discriminate|]. apply (I_tbl3 s I).
-      * rewrite (I_file s I) at 1. unfold partial. cbn [owner pcs set_pc].
-        destruct (owner s) as [o|]; [|reflexivity]. upd o t; [rewrite Ept|]; reflexivity.
-      * intros t0 i. upd t0 t; [intros [H|H]; discriminate|apply (I_cur s I)].
-      * intros t0 i. upd t0 t; [intros [H|[H|H]]; discriminate|apply (I_done s I)].
-      * intros t0. upd t0 t; [discriminate|apply (I_pos s I)].
-      * intros t0. upd t0 t; [|apply (I_log s I)]. rewrite (I_log s I), Ept. cbn. tauto.
-      * apply (I_nodup s I).
+      apply refused_inv; assumption.
     + (* table entry taken *)
       constructor; cbn [pcs tbl owner file log].
       * intros t0. upd t0 t; [|apply (I_owner s I)]. rewrite (I_owner s I), Ept. cbn. tauto.
@@ -401,14 +410,14 @@ Proof.
 Qed.
 
 (* hence an append issued after the others have finished always succeeds, at the next index *)
-Theorem later_append_succeeds sch t : let s := run c sch (init_st init) in quiescent s -> pcs s t = PStart -> bad c t = false ->
+Theorem later_append_succeeds sch t : let s := run c sch (init_st init) in quiescent s -> pcs s t = PStart -> bad c t = false -> away c t = false ->
   exists s', replay c [t; t; t; t; t; t; t] s = Some s' /\
              pcs s' t = PDoneOk (S (n0 + length (log s))) /\ log s' = log s ++ [t].
 Proof.
-  cbv zeta. intros Q Ht Hgood. pose proof (reachable_inv sch) as I.
+  cbv zeta. intros Q Ht Hgood Hhere. pose proof (reachable_inv sch) as I.
   destruct (quiescent_outcome sch Q) as (Hlen & _ & _ & Hown & Htbl).
   set (s := run c sch (init_st init)) in *.
-  cbn [replay]. unfold step at 1. rewrite Ht, Htbl.
+  cbn [replay]. unfold step at 1. rewrite Ht, Hhere, Htbl.
   unfold step at 1. cbn [pcs owner tbl file log]. rewrite updf_same, Hown.
   unfold step at 1. cbn [pcs owner tbl file log set_pc]. rewrite updf_same.
   unfold step at 1. cbn [pcs owner tbl file log set_pc]. rewrite updf_same, Hgood.
@@ -434,12 +443,127 @@ Proof.
   - destruct (bad c t); discriminate.
 Qed.
 
+(* a failed write leaves nothing behind (same file): a call whose write fails inside the critical section, run from a
+   state where nobody is inside a call, ends with the error and gives back exactly the state it started from *)
+Theorem failed_append_leaves_nothing sch u : let s := run c sch (init_st init) in
+  quiescent s -> pcs s u = PStart -> bad c u = true -> away c u = false ->
+  exists s', replay c [u; u; u; u; u; u] s = Some s' /\ pcs s' u = PDoneErr /\
+             file s' = file s /\ log s' = log s /\ owner s' = owner s /\ (forall p, tbl s' p = tbl s p) /\
+             (forall t, t <> u -> pcs s' t = pcs s t).
+Proof.
+  cbv zeta. intros Q Ht Hbad Hhere.
+  destruct (quiescent_outcome sch Q) as (_ & _ & _ & Hown & Htbl).
+  set (s := run c sch (init_st init)) in *.
+  cbn [replay]. unfold step at 1. rewrite Ht, Hhere, Htbl.
+  unfold step at 1. cbn [pcs owner tbl file log]. rewrite updf_same, Hown.
+  unfold step at 1. cbn [pcs owner tbl file log set_pc]. rewrite updf_same.
+  unfold step at 1. cbn [pcs owner tbl file log set_pc]. rewrite updf_same, Hbad.
+  unfold step at 1. cbn [pcs owner tbl file log set_pc]. rewrite updf_same.
+  unfold step at 1. cbn [pcs owner tbl file log set_pc]. rewrite updf_same.
+  eexists. split; [reflexivity|]. cbn [pcs owner tbl file log]. rewrite updf_same.
+  repeat split; try reflexivity.
+  - intros p. unfold updf. destruct (Nat.eqb p (proc c u)) eqn:E; [|reflexivity].
+    apply Nat.eqb_eq in E. subst p. symmetry. apply Htbl.
+  - intros t Hne. rewrite !updf_other by exact Hne. reflexivity.
+Qed.
+
 End Appenders.
 
+(* ------------------------------------------------------------------ failed calls on other files leave nothing behind *)
+(* Erasing from a history every call that went to another file and failed there changes nothing for the other calls:
+   same file, same order of completed writes, same lock state, same program counter (hence same result) for every
+   call on this file. No hypothesis on the configuration is needed. *)
+Section Away.
+Variable c : cfg.
+
+Definition here (t : nat) : bool := negb (away c t).
+
+Record Sim (s s' : st) : Prop := {
+  S_pcs : forall t, away c t = false -> pcs s t = pcs s' t;
+  S_away : forall t, away c t = true -> pcs s t = PStart \/ pcs s t = PDoneErr;
+  S_tbl : tbl s = tbl s';
+  S_owner : owner s = owner s';
+  S_file : file s = file s';
+  S_log : log s = log s'
+}.
+
+Lemma sim_updf (f g : nat -> pc) t v : (forall x, away c x = false -> f x = g x) ->
+  forall x, away c x = false -> updf f t v x = updf g t v x.
+Proof. intros H x Hx. unfold updf. destruct (Nat.eqb x t); [reflexivity|apply H; exact Hx]. Qed.
+
+Lemma away_updf (f : nat -> pc) t v : away c t = false -> (forall x, away c x = true -> f x = PStart \/ f x = PDoneErr) ->
+  forall x, away c x = true -> updf f t v x = PStart \/ updf f t v x = PDoneErr.
+Proof.
+  intros Ht H x Hx. unfold updf. destruct (Nat.eqb_spec x t) as [->|_]; [congruence|apply H; exact Hx].
+Qed.
+
+Lemma sim_step_here s s' t : Sim s s' -> away c t = false ->
+  match step c s t, step c s' t with
+  | Some a, Some b => Sim a b
+  | None, None => True
+  | _, _ => False
+  end.
+Proof.
+  intros [Hp Ha Ht Ho Hf Hl] Hh. destruct s as [p1 t1 o1 f1 l1], s' as [p2 t2 o2 f2 l2].
+  cbn [pcs tbl owner file log] in *. subst t2 o2 f2 l2.
+  unfold step. cbn [pcs tbl owner file log]. rewrite <- (Hp t Hh), Hh.
+  destruct (p1 t); unfold set_pc; cbn [pcs tbl owner file log];
+    repeat match goal with
+           | |- context [if ?b then _ else _] => destruct b
+           | |- context [match ?o with Some _ => _ | None => _ end] => destruct o
+           end;
+    try exact I;
+    (constructor; cbn [pcs tbl owner file log]; try reflexivity; [apply sim_updf; exact Hp|apply away_updf; assumption]).
+Qed.
+
+Lemma sim_step_away s s' t : Sim s s' -> away c t = true -> Sim (step_skip c s t) s'.
+Proof.
+  intros [Hp Ha Ht Ho Hf Hl] Hw. unfold step_skip, step. rewrite Hw.
+  destruct (Ha t Hw) as [E|E]; rewrite E.
+  - constructor; cbn [pcs tbl owner file log set_pc]; try assumption.
+    + intros x Hx. rewrite updf_other by (intros ->; congruence). apply Hp. exact Hx.
+    + intros x Hx. unfold updf. destruct (Nat.eqb x t); [right; reflexivity|apply Ha; exact Hx].
+  - constructor; assumption.
+Qed.
+
+Lemma sim_run sch : forall s s', Sim s s' -> Sim (run c sch s) (run c (filter here sch) s').
+Proof.
+  induction sch as [|t sch IH]; intros s s' H; [exact H|]. cbn [run fold_left filter].
+  unfold here at 1. destruct (away c t) eqn:E; cbn [negb].
+  - apply IH. apply sim_step_away; assumption.
+  - cbn [run fold_left]. apply IH. pose proof (sim_step_here s s' t H E) as Hs. unfold step_skip.
+    destruct (step c s t), (step c s' t); try contradiction; assumption.
+Qed.
+
+Theorem failed_elsewhere_leaves_nothing init sch :
+  let s := run c sch (init_st init) in
+  let s' := run c (filter here sch) (init_st init) in
+  file s = file s' /\ log s = log s' /\ owner s = owner s' /\ (forall p, tbl s p = tbl s' p) /\
+  (forall t, away c t = false -> pcs s t = pcs s' t) /\
+  (forall t, away c t = true -> pcs s t = PStart \/ pcs s t = PDoneErr).
+Proof.
+  cbv zeta. assert (H0 : Sim (init_st init) (init_st init)).
+  { constructor; try reflexivity. intros t _. left. reflexivity. }
+  destruct (sim_run sch _ _ H0) as [Hp Ha Ht Ho Hf Hl].
+  repeat split; try assumption. intros p. rewrite Ht. reflexivity.
+Qed.
+
+End Away.
+
 (* ------------------------------------------------------------------ non-vacuity: two processes, three threads *)
-Definition ex_cfg : cfg := mkCfg 4 2 (fun t => Nat.modulo t 2) (fun t => repeat (Z.of_nat (S t)) 4) (fun t => Nat.eqb t 3).
+Definition ex_cfg : cfg := mkCfg 4 2 (fun t => Nat.modulo t 2) (fun t => repeat (Z.of_nat (S t)) 4) (fun t => Nat.eqb t 3) (fun t => Nat.eqb t 4).
 Example ex_run :
   let s := run ex_cfg [0;1;0;2;1;0;0;0;0;0;1;1;1;1;1;1;2;2;2;2;2;2;2]%nat (init_st [9;9;9;9]) in
   (pcs s 0%nat, pcs s 1%nat, pcs s 2%nat, file s) =
   (PDoneOk 2, PDoneOk 3, PDoneErr, [9;9;9;9; 1;1;1;1; 2;2;2;2]).
 Proof. vm_compute. reflexivity. Qed.
+
+(* a call that fails on another file (thread 4) in the middle of the others, and a call whose write fails on this file
+   (thread 3) before a later append (thread 5): both leave nothing behind *)
+Example ex_run_failed :
+  let sch := [0;0;0;4;1;0;0;0;0;1;1;1;1;1;1;3;3;3;3;3;3;5;5;5;5;5;5;5]%nat in
+  let s := run ex_cfg sch (init_st [9;9;9;9]) in
+  (pcs s 0%nat, pcs s 1%nat, pcs s 3%nat, pcs s 4%nat, pcs s 5%nat, file s) =
+  (PDoneOk 2, PDoneOk 3, PDoneErr, PDoneErr, PDoneOk 4, [9;9;9;9; 1;1;1;1; 2;2;2;2; 6;6;6;6]) /\
+  filter (here ex_cfg) sch = [0;0;0;1;0;0;0;0;1;1;1;1;1;1;3;3;3;3;3;3;5;5;5;5;5;5;5]%nat.
+Proof. vm_compute. split; reflexivity. Qed.
